@@ -46,4 +46,16 @@ PROPS = {
         "not_covered": ["what happens below bidib_buffer_message_* (sequence number, admission, framing): C01/C03/C05"],
         "explanation": "table-driven per-function contracts, DESIGN.md §5 C18",
     },
+    "C01": {
+        "claimed": True, "engine": "cbmc-contracts", "level": "proof",
+        "technique": "contract-based deductive verification (CBMC/DFCC): function contracts + inductive loop invariants on the real send path (flush, add_to_buffer, encoders, capacity, CRC table)",
+        "level_text": "Proved for all inputs with no unwinding bound on the library's loops: (1) bidib_flush_impl emits, for every buffer content and fill level 0..256, only non-empty prefixes of its 312-byte staging buffer, never overruns it, starts and ends the packet with the delimiter, emits exactly 1+n+#escapes+crc(1|2)+1 bytes and nothing for an empty buffer, and empties the buffer; (2) bidib_add_to_buffer (flush and memcpy replaced by their contracts) keeps the buffer invariant for every fill level, capacity 64..255 and message length 4..128, copies inside the 256-byte buffer, keeps earlier bytes, places the message byte-identically exactly once, and never asks for a multi-message packet above the capacity; (3) both encoders build len|addr|0|seq|type|data for every depth/type/payload and hand the same message to admission and, iff admitted, once to the buffer; (4) capacity = max(64, announced); (5) the CRC table equals the CRC8 of the spec for all 65536 (crc,byte) pairs. The lock clause (every access under bidib_send_buffer_mutex) is C11/C10.",
+        "level_note": "Trusted: CBMC 6.11 + DFCC. NOT yet discharged: byte-for-byte equality of the emitted stream with the reference encoder (escape values, CRC value) - only framing/length/accounting of bidib_flush_impl is proved; interleavings are reduced to the mutex discipline (C11). memcpy is replaced by a contract (writable destination, readable source, over-approximated effect observed through watched indices).",
+        "assumptions": ["clock_gettime returns tv_sec in [0,2^40), tv_nsec in [0,1e9) (stub)", "syslog_libbidib compiled out",
+                        "the user's write callback does not touch library state", "pkt_max_cap is not lowered between the filling of the buffer and its flush (capacity 'in force when it was filled' is modelled as the current capacity)",
+                        "volatile statics of send.c are read as ordinary memory (sound under the mutex, whose discipline is C11)"],
+        "trusted_base": ["memcpy contract stub in units/C01/add_to_buffer.c", "callee contracts in units/C01/encoders.c (try_send, add_to_buffer, seqnum, extract_address): each proved in its own unit except where listed under assumed contracts"],
+        "not_covered": ["byte-exact content of the escaped stream and the CRC value (functional flush proof not discharged in this version)", "true concurrency semantics beyond lock discipline", "auto-flush timing"],
+        "explanation": "DESIGN.md §5 C01",
+    },
 }
